@@ -116,8 +116,10 @@ Record level := { lv_shards : list (list table); lv_main : list table }.
 Definition shard_search (k : bytes) (v : N) (best : option rec) (sh : list table) : option rec :=
   scan_tables k v (rev (filter (fun t => bytes_leb (t_min t) k) sh)) best.
 
-Definition level_get (k : bytes) (v : N) (lv : level) : option rec :=
-  let best := fold_left (shard_search k v) (lv_shards lv) None in
+(** levelHandler.getNewerThan: ingest buffer then main tables, continuing from
+    the best hit of the sources scanned before this level. *)
+Definition level_get (k : bytes) (v : N) (best : option rec) (lv : level) : option rec :=
+  let best := fold_left (shard_search k v) (lv_shards lv) best in
   main_search k v (lv_main lv) best.
 
 Record state := {
@@ -145,15 +147,31 @@ Definition mem_get (k : bytes) (v : N) (l : list rec) : option rec :=
   | None => None
   end.
 
+(** LSM.Get / levelManager.getNewerThan (after the repair of the first-hit
+    rule): one running best over the memtables (newest first), L0 (newest
+    table first) and every level; a later source replaces it only with a
+    strictly greater version (the first scanned copy wins ties); the scan stops
+    early only when the best has exactly the requested version. *)
+Definition exact (v : N) (best : option rec) : bool :=
+  match best with Some b => r_ver b =? v | None => false end.
+
+Definition mem_step (k : bytes) (v : N) (best : option rec) (l : list rec) : option rec :=
+  if exact v best then best
+  else match mem_get k v l with
+       | Some x => match best with
+                   | None => Some x
+                   | Some b => if r_ver b <? r_ver x then Some x else best
+                   end
+       | None => best
+       end.
+
+Definition level_step (k : bytes) (v : N) (best : option rec) (lv : level) : option rec :=
+  if exact v best then best else level_get k v best lv.
+
 Definition get (s : state) (k : bytes) (v : N) : option rec :=
-  match first_some (mem_get k v (st_mem s) :: map (fun m => mem_get k v (snd m)) (rev (st_imms s))) with
-  | Some r => Some r
-  | None =>
-      match scan_tables k v (rev (st_l0 s)) None with
-      | Some r => Some r
-      | None => first_some (map (level_get k v) (st_lvls s))
-      end
-  end.
+  let b1 := fold_left (mem_step k v) (st_mem s :: map snd (rev (st_imms s))) None in
+  let b2 := if exact v b1 then b1 else scan_tables k v (rev (st_l0 s)) b1 in
+  fold_left (level_step k v) (st_lvls s) b2.
 
 (** * Maintenance *)
 
